@@ -806,6 +806,75 @@ def dict_iter(it):
     return None, it, None
 
 
+def fold_lazy_init(func_node):
+    """``x = None`` ... ``if x is None: x = E`` (the only other assignment to x, E built from names the function never
+    rebinds) is the lazy spelling of ``x = E`` at the place of the ``if``: from there on x *is* E.  Returns the function with the
+    idiom written out that way (a copy), or the function itself when the idiom does not occur."""
+    assigns = {}
+    stores = {}
+    for n in ast.walk(func_node):
+        if isinstance(n, ast.Name) and isinstance(n.ctx, (ast.Store, ast.Del)):
+            stores[n.id] = stores.get(n.id, 0) + 1
+        if isinstance(n, ast.Assign) and len(n.targets) == 1 and isinstance(n.targets[0], ast.Name):
+            assigns.setdefault(n.targets[0].id, []).append(n)
+    params = set(a.arg for a in func_node.args.posonlyargs + func_node.args.args + func_node.args.kwonlyargs)
+    todo = {}
+    for name, al in assigns.items():
+        if len(al) != 2 or stores.get(name) != 2 or name in params:
+            continue
+        nones = [a for a in al if isinstance(a.value, ast.Constant) and a.value.value is None]
+        others = [a for a in al if a not in nones]
+        if len(nones) != 1 or len(others) != 1:
+            continue
+        e = others[0].value
+        free = set(x.id for x in ast.walk(e) if isinstance(x, ast.Name))
+        if name in free or any(stores.get(v) and v not in params for v in free) or any(stores.get(v) for v in free & params):
+            continue
+        todo[name] = (nones[0], others[0])
+    if not todo:
+        return func_node
+    found = set()
+
+    def is_lazy_if(st):
+        if isinstance(st, ast.If) and not st.orelse and len(st.body) == 1 and isinstance(st.test, ast.Compare) and len(st.test.ops) == 1 \
+                and isinstance(st.test.ops[0], ast.Is) and isinstance(st.test.left, ast.Name) and st.test.left.id in todo \
+                and isinstance(st.test.comparators[0], ast.Constant) and st.test.comparators[0].value is None \
+                and st.body[0] is todo[st.test.left.id][1]:
+            return st.test.left.id
+        return None
+    for n in ast.walk(func_node):
+        for fld in ("body", "orelse", "finalbody"):
+            blk = getattr(n, fld, None)
+            if isinstance(blk, list):
+                for st in blk:
+                    nm = is_lazy_if(st)
+                    if nm:
+                        found.add(nm)
+    if not found:
+        return func_node
+    import copy
+    new = copy.deepcopy(func_node)
+    # (positions are kept: the copy is walked in the same order as the original)
+    orig_nodes = list(ast.walk(func_node))
+    new_nodes = list(ast.walk(new))
+    twin = dict((id(o), c) for o, c in zip(orig_nodes, new_nodes))
+    drop = set(id(twin[id(todo[nm][0])]) for nm in found)
+    lazy = dict((id(twin[id(st)]), twin[id(st)].body[0]) for st in orig_nodes if is_lazy_if(st) in found)
+    for n in new_nodes:
+        for fld in ("body", "orelse", "finalbody"):
+            blk = getattr(n, fld, None)
+            if isinstance(blk, list) and blk and isinstance(blk[0], ast.stmt):
+                out = []
+                for st in blk:
+                    if id(st) in drop:
+                        continue
+                    out.append(lazy.get(id(st), st))
+                if not out:
+                    out = [ast.copy_location(ast.Pass(), blk[0])]
+                setattr(n, fld, out)
+    return new
+
+
 class Extractor(object):
     """Run over one FunctionDef; result: .events (ordered), .env_at_exit, .params"""
 
@@ -820,6 +889,7 @@ class Extractor(object):
         self.attr_renames = attr_renames if attr_renames is not None else (parent.attr_renames if parent is not None else None)
         # (name of the analysed method's self, lookup of class-level constants seen through it)
         self.self_consts = self_consts if self_consts is not None else (parent.self_consts if parent is not None else None)
+        func_node = fold_lazy_init(func_node)
         self.func = func_node
         self.inliner = inliner
         self.parent = parent
